@@ -443,6 +443,19 @@ def _smooth_scn(rng):
         if mname == "burgers":     # keep away from u = 0 (upwind switch) : one-signed smooth data
             s.prim = [1.0 + 0.4 * np.sin(2 * np.pi * (np.arange(s.mesh.ncell) + 0.5) / s.mesh.ncell + rng.uniform(0, 6))]
             s.field = gen.fdata_prim(s.model, s.mesh, s.prim)
+    if not limited and rng.random() < 0.3:
+        # the same state in other UNITS: velocities of 1e-8...1e4 (Burgers), densities and pressures of 1e-10...1e8 (gas / water column):
+        # the Jacobian and the step must be right whatever the size of the numbers (a differencing step that stops scaling with the state
+        # below 1 is not)
+        amp = float(10 ** rng.uniform(-8, 4)) if mname == "burgers" else float(10 ** rng.uniform(-10, 8))
+        if mname == "burgers":
+            s.prim = [s.prim[0] * amp]
+        elif mname == "shallowwater":
+            s.prim = [s.prim[0] * amp, s.prim[1] * np.sqrt(amp)]          # same Froude numbers
+        else:
+            s.prim = [s.prim[0] * amp, s.prim[1], s.prim[2] * amp]          # same Mach numbers
+        s.field = gen.fdata_prim(s.model, s.mesh, s.prim)
+        s.units = amp
     return s, limited
 
 
